@@ -4,6 +4,7 @@
 package harness
 
 import (
+	"os"
 	"fmt"
 	"runtime/debug"
 	"strings"
@@ -33,12 +34,18 @@ type panicCore struct {
 
 func (c panicCore) With([]zapcore.Field) zapcore.Core { return c }
 func (c panicCore) Check(e zapcore.Entry, ce *zapcore.CheckedEntry) *zapcore.CheckedEntry {
-	if e.Level >= zapcore.ErrorLevel {
+	if e.Level >= zapcore.ErrorLevel || (verboseLog && e.Level >= zapcore.WarnLevel) {
 		return ce.AddCore(e, c)
 	}
 	return ce
 }
 func (c panicCore) Write(e zapcore.Entry, _ []zapcore.Field) error {
+	if verboseLog {
+		fmt.Println("  LOG", e.Level, e.Message)
+		if e.Level < zapcore.ErrorLevel {
+			return nil
+		}
+	}
 	LogErrors++
 	if len(LastErrors) < 8 {
 		LastErrors = append(LastErrors, e.Message)
@@ -49,6 +56,9 @@ func (c panicCore) Write(e zapcore.Entry, _ []zapcore.Field) error {
 	return nil
 }
 func (c panicCore) Sync() error { return nil }
+
+// verboseLog (VERIF_LOG=1): print the server's warnings and errors (debugging aid).
+var verboseLog = os.Getenv("VERIF_LOG") != ""
 
 // LogErrors counts error-level log lines of the server (reset per run).
 var LogErrors int
